@@ -703,6 +703,11 @@ class Table18:
         return z3.ForAll([i], z3.Implies(z3.And(self.R(i), self.e(i) == i), c(i) == i))
 
 
+COMPONENT_LEMMAS = ("assumed-lemma: component lemmas (lean/Components.lean): the clauses that quantify over EVERY labelling constant along edges say "
+                    "`same label exactly when connected` / `all rows connected` / `these two rows are not connected` for the undirected connectivity of the table; "
+                    "no instance is assumed on the SMT side -- the lemmas give the clauses their reading")
+
+
 class AnyName(dict):
     """loop `rebind` rule for whatever name an array has that the loop body rebinds (`a = f(a)`): a fresh array of the same kind and length"""
 
@@ -733,6 +738,7 @@ def register_get_dsu(R):
         """proof step at entry: e(i) is a row and carries the looked-up id (from `parents-exist` and the definition of lastrow)"""
         T = Table18(E, fr.vars["df"])
         i = z3.Int("i18")
+        E.assumptions.add(COMPONENT_LEMMAS)
         E.prove("get_dsu/step/every-row-has-a-parent-row", z3.ForAll([i], z3.Implies(T.R(i), z3.And(T.R(T.e(i)), z3.Select(T.ID, T.e(i)) == T.key(i)))), "annotation")
 
     def labels_of(v):
@@ -876,6 +882,7 @@ def register_single_root(R):
              "false-only-if-some-rows-are-not-connected(a-labelling-constant-along-edges-separates-two-rows)"]
     R.add(f"{CHK}:is_single_root", prop="C18", setup=setup,
           requires=[("every-parent-id-names-a-row", pre_parents)], returns="bool",
+          lemmas=[lambda E, fr: E.assumptions.add(COMPONENT_LEMMAS)],
           ensures=[(nm, post(nm)) for nm in POSTS],
           notes="connectivity of the undirected graph of the table, cycles allowed; rests on get_dsu's contract (partial correctness)")
 
@@ -988,6 +995,7 @@ def register_link_roots(R):
         S.assume(n.z >= 0)
         df = XFrame({c: SArr.fresh(k, n.z, name=f"df_{c}") for c, k in cols.items()}, n.z)
         df.frozen = frozen
+        df.frozen_cols = frozenset(c for c in cols if c != "pid")  # the repair may write parent ids only: any other store is a failed frame-write obligation
         return df
 
     def ghost_state(n):
@@ -1101,20 +1109,28 @@ def register_link_roots(R):
         n, ID, P1 = zint(d0.n), d0.cols["id"].arr, d1.cols["pid"].arr
         r0 = by_type(v, RowIter18, "row iterator").sel.flt.kappa(0)
         mask, data = dis.mask, dis.data
-        # proof steps: the first root's tree is another tree, so some row is unmasked
-        E.prove("link_roots_to_nearest_/step/the-first-root-heads-another-tree", z3.And(r0 >= 0, r0 < n, sel(rt, r0) == r0, sel(rt, i) == i, r0 != i), "annotation")
-        E.prove("link_roots_to_nearest_/step/some-row-lies-in-another-tree", z3.Not(mask.get(r0).z), "annotation")
-        # step clauses of the property
+        # step clauses of the property for this link
+        E.prove(LINK + "the-root-being-linked-is-not-the-first-root(which-heads-another-tree)",
+                z3.And(r0 >= 0, r0 < n, sel(rt, r0) == r0, sel(rt, i) == i, r0 != i), "assert")
+        E.prove(LINK + "some-row-outside-its-own-tree-is-a-candidate(the-first-root's-row-is-not-masked)", z3.Not(mask.get(r0).z), "assert")
+        x = z3.Int("x18")
+        E.prove(LINK + "nothing-but-parent-ids-of-roots-has-been-written",
+                z3.And(z3.BoolVal(list(d1.cols) == list(d0.cols)), zint(d1.n) == n,
+                       z3.ForAll([x], z3.Implies(z3.And(x >= 0, x < n, sel(d0.cols["pid"].arr, x) != -1), sel(P1, x) == sel(d0.cols["pid"].arr, x))),
+                       *[z3.ForAll([x], z3.Implies(z3.And(x >= 0, x < n), sel(d1.cols[c].arr, x) == sel(d0.cols[c].arr, x))) for c in d0.cols if c != "pid"]), "assert")
         E.prove(LINK + "the-root-gets-as-parent-the-id-of-a-row-outside-its-own-tree", z3.And(j >= 0, j < n, sel(rt, j) != i, sel(P1, i) == sel(ID, j)), "assert")
         y = z3.Int(fresh_name("any_row"))
         dy = data.get(y).z
         M = getattr(data, "norm_of", None)
-        if M is None or len(M.cols) != 3:
-            raise KeyError("link_roots_to_nearest_: the distance array is not the row norm of an (n, 3) array")
+        if M is None:
+            raise KeyError("link_roots_to_nearest_: the distance array is not the row norm of a matrix")
         comp = [to_z3(Sym(sel(c, y), M.kind), "real") for c in M.cols]
+        diff = [sel(d0.cols[c].arr, y) - sel(d0.cols[c].arr, i) for c in ("x", "y", "z")]
+        sumsq = lambda ts: sum((t * t for t in ts), z3.RealVal(0))
+        # three components: named one by one (linear facts); any other shape: the polynomial identity itself
+        same = z3.And(*[cv == dv for cv, dv in zip(comp, diff)]) if len(comp) == 3 else sumsq(comp) == sumsq(diff)
         E.prove(LINK + "the-distance-array-holds-the-euclidean-distances-of-the-input-coordinates-to-the-root",
-                z3.Implies(z3.And(y >= 0, y < n), z3.And(dy >= 0, dy * dy == comp[0] * comp[0] + comp[1] * comp[1] + comp[2] * comp[2],
-                                                         *[cv == sel(d0.cols[c].arr, y) - sel(d0.cols[c].arr, i) for cv, c in zip(comp, ("x", "y", "z"))])), "assert")
+                z3.Implies(z3.And(y >= 0, y < n), z3.And(dy >= 0, dy * dy == sumsq(comp), same)), "assert")
         E.prove(LINK + "no-row-outside-its-own-tree-is-nearer", z3.Implies(z3.And(y >= 0, y < n, sel(rt, y) != i), data.get(j).z <= dy), "assert")
         # ghost update: the tree of i now hangs under row j
         x = z3.Int("x18")
